@@ -1,4 +1,4 @@
-import ZbossModel.Proofs.HostBound
+import ZbossModel.Proofs.HostTimers
 /-! # C20 - closing or losing the link never strands a caller and is reported once -/
 namespace Zboss.Host
 
@@ -192,6 +192,18 @@ theorem C20_close_bounded (evs : List Ev) (hnr : (runEvents {} evs).1.resetting 
   intro r hrm
   exact (hcalm (core r) (List.mem_map.mpr ⟨r, hrm, rfl⟩)).2
 
+/-- **requests in flight terminate by their timeout - one timer event at a time, every history**: if a request waits
+    for its response and the clock reaches its deadline at the next timer event, the request has ended (with
+    `TimeoutError`) after that event - whether the link is open, lost or closed, whatever else is going on.  With
+    `C20_no_stranding` (a running request at a quiescent point waits for a pending ACK or response wait) this is the
+    loss clause of the property. -/
+theorem C20_response_wait_ends_at_deadline (evs : List Ev) (r : Req) (hr : r ∈ (runEvents {} evs).1.reqs)
+    (hp : r.phase = .waitRsp) (hgot : r.got = .nothing) (d : Nat)
+    (hnd : nextDeadline ({ (runEvents {} evs).1 with out := [] } : St) = some d)
+    (hdue : r.deadline ≤ max (runEvents {} evs).1.now d) :
+    ∃ r' ∈ (step (runEvents {} evs).1 .tick).reqs, r'.id = r.id ∧ r'.phase = .done :=
+  response_wait_ends _ (good_reachable evs) r hr hp hgot d hnd hdue
+
 /-- the task of a request always blocks or ends within six micro-steps: the fuel of the model's `runReq` (64) is never
     the reason a task stops -/
 theorem C20_task_runs_to_a_stop (st : St) (i : Nat) : rank st i ≤ 5 := rank_le st i
@@ -201,6 +213,11 @@ theorem C20_task_runs_to_a_stop (st : St) (i : Nat) : rank st i ≤ 5 := rank_le
 example : let st := (runEvents {} [.start 1 5 true 3 300013, .start 2 1 true 1 500026, .start 3 2 false 2 700039, .close, .tick]).1
     st.ready = [] ∧ (st.reqs.all fun r => r.phase != .waitAck) = true ∧ (st.reqs.all fun r => r.phase == .done) = true ∧
     st.isOpen = false ∧ st.listeners = [] := by decide +kernel
+
+/-! ## non-vacuity of `C20_response_wait_ends_at_deadline`: the link is lost while request 1 awaits its response; its
+    timer (300013 ms) is the next one: afterwards the request has ended with `TimeoutError` -/
+example : let r := runEvents {} [.start 1 5 false 1 300013, .rxAck 0, .lost, .tick]
+    r.2.getLast? = some [.done 1 .timeoutError] ∧ r.1.now = 300013 := by decide +kernel
 
 /-! ## non-vacuity of `C20_close_bounded`: three requests (one awaiting the ACK of its first fragment, written at
     time 0, two queued); close: the loop comes to rest with request 1 still in its ACK wait; the timer fires at
